@@ -30,7 +30,8 @@
  * vf.h's realloc model keeps only a ghost window of the old contents (it serves the contract
  * groups); the concrete histories here need the whole bucket array preserved, so vf.h's model
  * is renamed out of the way and a full-copy model of the ISO C behaviour is supplied instead
- * (CBMC mode only; the native build uses glibc).  Groups run with --no-malloc-may-fail.
+ * (CBMC mode only; the native build uses glibc), likewise a struct-assignment model of the
+ * memcpy() inside cstl_hash_swap().  Groups run with --no-malloc-may-fail.
  *
  * The container-of casts of hash.c are normalised in the scratch copy (vflib/prep.py).
  */
@@ -68,12 +69,24 @@ void * realloc(void * ptr, size_t size)
     }
     return res;
 }
+
+/* cstl_hash_swap() exchanges two tables via a third with three memcpy()s of the whole struct
+ * (cstl_swap in cstl/common.h), the only memcpy in this translation unit.  CBMC's built-in
+ * byte-wise memcpy turns the table header into byte-update terms that no longer constant-fold
+ * (measured: one swap scenario did not finish in 25 minutes); copying the same bytes as one
+ * struct assignment is the same function on these arguments and keeps the run concrete. */
+void * memcpy(void * dst, const void * src, size_t n)
+{
+    __CPROVER_assert(n == sizeof(struct cstl_hash), "memcpy model: only whole tables are copied in this translation unit");
+    *(struct cstl_hash *)dst = *(const struct cstl_hash *)src;
+    return dst;
+}
 #endif
 
 #include "hash.c"
 
 /* CBMC's built-in pointer / bounds / arithmetic checks stay enabled in everything above (the
- * library code under test and the realloc model).  They are switched off for the specification
+ * library code under test and the realloc / memcpy models).  They are switched off for the specification
  * code below, which accounts for nearly all symbolic-execution steps (measured: 27 s -> 5 s for
  * two scenarios): the checkers identify a node or element by comparing its address with the
  * pool addresses BEFORE they dereference it, so a stray pointer produced by the library shows up
@@ -464,7 +477,6 @@ static void vf_keyed_op(struct cstl_hash * h, struct vf_model * m, int code)
     }
     vf_check_struct(h, m);
 }
-static const int vf_ops_default[4] = { 0, 1, 2, 3 };
 static void vf_build(struct cstl_hash * h, struct vf_model * m, size_t m1, int f1, size_t m2, int f2, const int * ops, int s)
 {
     int j;
@@ -522,8 +534,11 @@ void h_b_rehash(void)
                     for (v = VF_VAR_LO; v <= VF_VAR_HI; v++) {
                         struct cstl_hash h, h2; struct vf_model m, mb;
                         struct cstl_hash * t = &h;
-                        size_t exp_n = m2; int exp_f = f2, was_pending;
-                        vf_build(&h, &m, m1, f1, m2, f2, vf_ops_default, s);
+                        size_t exp_n = m2; int exp_f = f2, was_pending, ops[4], j;
+                        /* vary the order of the keyed operations and the element the checker looks up first, so that
+                         * across the scenarios each key is the first one used on a freshly pending table */
+                        for (j = 0; j < 4; j++) ops[j] = (j + 2 * f2 + (int)m2) % 4;
+                        vf_build(&h, &m, m1, f1, m2, f2, ops, s);
                         was_pending = H_PENDING(&h);
                         if (v == 1) {
                             exp_n = (m2 % 4) + 1; exp_f = 1 - f2;
@@ -563,7 +578,7 @@ void h_b_rehash(void)
                             VF_ASSERT(H_PENDING(&h2) == was_pending && !H_PENDING(&h), "swap: a pending rehash travels with its table");
                             saw_swap_pending |= was_pending;
                         }
-                        vf_check(t, &m, s + v);
+                        vf_check(t, &m, 2 + s + v);          /* s == 0: element 2 first, whose old bucket is the last to be swept */
                         VF_ASSERT(!H_PENDING(t) && t->bucket.count == exp_n && t->bucket.hash == vf_fn(exp_f), "the most recently requested geometry is installed once the rehash is complete");
                         vf_load_check(t, &m);
                         if (v == 5) {
